@@ -100,6 +100,21 @@ class CheckError(Exception):
     pass
 
 
+def write_coqproject():
+    """coq/_CoqProject lists every .v file of coq/ (and coq/gen/); rewritten only when the list changes"""
+    cp = os.path.join(COQ, "_CoqProject")
+    files = sorted(f for f in os.listdir(COQ) if f.endswith(".v"))
+    gen = os.path.join(COQ, "gen")
+    if os.path.isdir(gen):
+        files += sorted("gen/" + f for f in os.listdir(gen) if f.endswith(".v"))
+    txt = "-R . Verif\n-arg -w -arg -deprecated-since-8.16\n" + "\n".join(files) + "\n"
+    old = open(cp).read() if os.path.exists(cp) else None
+    if old != txt:
+        with open(cp, "w") as f:
+            f.write(txt)
+    return cp
+
+
 class Ctx:
     def __init__(self, prop, tier, seed):
         self.prop = prop
@@ -121,7 +136,7 @@ class Ctx:
     # ---------------------------------------------------------------- Coq
     def coq_makefile(self):
         mk = os.path.join(COQ, "Makefile.coq")
-        cp = os.path.join(COQ, "_CoqProject")
+        cp = write_coqproject()
         if (not os.path.exists(mk)) or os.path.getmtime(mk) < os.path.getmtime(cp):
             rc, out = sh("coq_makefile -f _CoqProject -o Makefile.coq", cwd=COQ)
             if rc != 0:
@@ -292,10 +307,21 @@ def parallel_map(fn, items, workers=None):
 
 # -------------------------------------------------------------------- known findings
 def load_known():
+    """known_findings.json (committed, never written at run time): 'findings' = recorded genuine defects (suppress the
+    matching violation kind, printed as KNOWN-FINDING), 'fixed' = repaired ones (suppress nothing)"""
     p = os.path.join(ROOT, "known_findings.json")
-    if not os.path.exists(p):
-        return {"findings": [], "fixed": []}
-    return json.load(open(p))
+    k = {"findings": [], "fixed": []}
+    if os.path.exists(p):
+        k = json.load(open(p))
+    # per-property fragments (same structure), committed next to the main file
+    d = os.path.join(ROOT, "known_findings.d")
+    if os.path.isdir(d):
+        for f in sorted(os.listdir(d)):
+            if f.endswith(".json"):
+                kk = json.load(open(os.path.join(d, f)))
+                k.setdefault("findings", []).extend(kk.get("findings", []))
+                k.setdefault("fixed", []).extend(kk.get("fixed", []))
+    return k
 
 
 # -------------------------------------------------------------------- result / evidence
